@@ -81,19 +81,32 @@ def possible_cpus():
 
 
 def replay_percpu(name, conc, notes):
-    """a machine with fewer online than possible CPUs, simulated by
-    interposing os.cpu_count as seen by ebpfcat.arraymap"""
+    """a process pinned to one CPU on a machine where fewer CPUs are online
+    than possible (the latter simulated by interposing os.cpu_count)"""
+    import os
     import ebpfcat.arraymap as AM
     possible = possible_cpus() or 16
     online = max(1, possible - 1)
+    aff = os.sched_getaffinity(0)
+    try:
+        os.sched_setaffinity(0, {min(aff)})
+        return _replay_percpu(AM, possible, online)
+    finally:
+        os.sched_setaffinity(0, aff)
+
+
+def _replay_percpu(AM, possible, online):
 
     class Prog:
         pass
     m = AM.PerCPUArrayMap()
     m.name = "percpu"
     m.size = 16
-    saved = AM.cpu_count, AM.create_map
-    AM.cpu_count = lambda: online
+    import os
+    saved = getattr(AM, "cpu_count", None), AM.create_map, os.cpu_count
+    if saved[0] is not None:
+        AM.cpu_count = lambda: online
+    os.cpu_count = lambda: online
     AM.create_map = lambda *a, **k: 5
     try:
         p = Prog()
@@ -101,11 +114,13 @@ def replay_percpu(name, conc, notes):
         with Recorder() as r:
             p.percpu.read()
     finally:
-        AM.cpu_count, AM.create_map = saved
+        if saved[0] is not None:
+            AM.cpu_count = saved[0]
+        AM.create_map, os.cpu_count = saved[1], saved[2]
     vbuf = r.calls[0][1][2]
     need = 16 * possible
     return {"inputs": {"possible_cpus": possible, "online_cpus (os.cpu_count, simulated)": online,
-                       "per-CPU map value_size": 16},
+                       "cpu affinity of the process": "one CPU", "per-CPU map value_size": 16},
             "reproduced": vbuf < need,
             "detail": f"real PerCPUArrayMap.create_map + PerCPUReader.read with bpf() interposed: value buffer of "
                       f"{vbuf} bytes, the kernel writes roundup8(16) * {possible} possible CPUs = {need} bytes"}
@@ -114,7 +129,7 @@ def replay_percpu(name, conc, notes):
 def native(name, conc, notes):
     if "HashGlobalVarDesc.__get__" in name:
         return replay_hash_get(name, conc, notes)
-    if "PerCPUReader.read" in name:
+    if "PerCPUReader.read" in name or "PerCPUArrayMap.create_map" in name:
         return replay_percpu(name, conc, notes)
     return {"inputs": conc, "reproduced": None, "detail": "no native harness for this clause"}
 
@@ -129,8 +144,10 @@ def run(tier, seed):
     rep.assume("the number of possible CPUs is >= 1 and otherwise unknown; os.cpu_count() (online CPUs) is not "
                "related to it by any contract")
     rep.assume("class invariants used at the call sites are established by HashMap.init, Dict.init/TheDict.__init__ "
-               "(proved here) and by PerCPUArrayMap.create_map / FastEtherCat.connect (create_map arguments, read off "
-               "the source: PERCPU_ARRAY 4/size, PROG_ARRAY 4/4); ArrayMap.collect makes size a multiple of 8 (C08)")
+               "and PerCPUArrayMap.create_map (proved here) and by FastEtherCat.connect (create_map arguments read "
+               "off the source: PROG_ARRAY 4/4); ArrayMap.collect makes size a multiple of 8 (C08)")
+    rep.assume("arraymap.possible_cpus(): /sys/devices/system/cpu/possible lists every possible CPU (sysfs contract); "
+               "os.cpu_count() and os.sched_getaffinity() are unrelated to the number of possible CPUs")
     saved = dict(api.REGISTRY)
     try:
         S.install_layer1()
@@ -142,7 +159,7 @@ def run(tier, seed):
         api.REGISTRY["ebpfcat.ebpf:EBPF.load"] = nop
         api.REGISTRY["ebpfcat.ebpf:EBPF.close"] = nop
         fmts = S.FMTS if tier == "thorough" else ["B", "I", "q"]
-        cs = [S.hashmap_init, S.percpu_read, S.register]
+        cs = [S.hashmap_init, S.percpu_create, S.percpu_read, S.register]
         for f in fmts:
             cs += [S.hashvar_get(f), S.hashvar_set(f)]
         for K, V in (S.STRUCTS if tier == "thorough" else S.STRUCTS[:1]):
